@@ -28,6 +28,7 @@ ASSUMPTIONS = [
     "supplied fiat values > 0 and crypto_out_with_fee consistent with amount + fee (R4)",
     "the monitor sees conversions that go through RP2Decimal.__float__ (float(x), '%f' % x, math functions)",
 ]
+RULE += e2e.RULE_SUFFIX
 
 CFG = gen.GenCfg(min_steps=2, max_steps=12, wide=True, fiat_columns=True)
 REL = Fraction(1, 10**15)
